@@ -200,9 +200,11 @@ def suite_ctl(mc_results, tier, seed):
         backends = LAYOUTS[r["layout"]][2]
         for i, ops in enumerate(ds):
             be = backends[i % len(backends)]
-            drivers.append({"id": "mc:%s:%d" % (r["name"], i),
-                            "cfg": cfg_for(r["layout"], r["params"]["Kind"], be, cap=r["params"]["Cap"]),
-                            "ops": ops})
+            cfg = cfg_for(r["layout"], r["params"]["Kind"], be, cap=r["params"]["Cap"])
+            if be == "file":
+                # the arena mapped at an offset into its file (every other file-backed driver)
+                cfg["offset"] = [0, 4096, 0, 192][(i // len(backends)) % 4]
+            drivers.append({"id": "mc:%s:%d" % (r["name"], i), "cfg": cfg, "ops": ops})
     # boundary-dense positions: each position applied in a reachable shape, then two probing allocations
     shapes = [[], [AB(16)], [AB(40), AB(24)], [AB(40), AB(40), AB(8), {"k": "drop", "h": 1}, {"k": "discard"}]]
     n = 0
@@ -242,6 +244,8 @@ def suite_ctl(mc_results, tier, seed):
         be = rng.choice(["vec", "anon", "file"])
         pre = gen_seq.churn_driver(rng, "t", [["unsync", be]], rounds=rng.randint(1, 3))
         cfg = pre["cfg"]
+        if be == "file":
+            cfg["offset"] = [0, 4096, 192][i % 3]
         cap = cfg["cap"]
         nn = rng.choice([0, 1, cap // 2, cap - 1, cap, cap + 1, 2 * cap, 4 * cap, rng.randint(0, 4 * cap)])
         ops = pre["ops"] + [{"k": "truncate", "v": nn}]
